@@ -82,7 +82,7 @@ ObsChecksIx(o, pfx, ix) ==
   {<<pfx \o "Exists", Rng(o.exists) = Present>>,
    <<pfx \o "Fetch", Rng(o.fetchok) = Present>>,
    <<pfx \o "Tags", {<<o.tags[i][1], o.tags[i][2]>> : i \in 1..Len(o.tags)} = TagPairs(tags)>>,
-   <<pfx \o "TagAnnotations", IsOci => \A i \in 1..Len(o.tags) : o.tags[i][1] \in Refs => o.tags[i][3] = tagann[o.tags[i][1]]>>,
+   <<pfx \o "TagAnnotations", \A i \in 1..Len(o.tags) : o.tags[i][1] \in Refs => o.tags[i][3] = tagann[o.tags[i][1]]>>,
    <<pfx \o "ExistsPlain", Rng(o.existsplain) = Present /\ Rng(o.fetchplain) = Present>>,
    <<pfx \o "Pred", \A n \in Nodes : Rng(o.pred[n]) = Pred(content, n)>>,
    <<pfx \o "PredNoDup", \A n \in Nodes : Len(o.pred[n]) = Cardinality(Rng(o.pred[n]))>>,
@@ -132,12 +132,21 @@ Apply(st, r) ==
    tagann |-> IF r.op = "tag" /\ x.res = "ok" THEN [st.tagann EXCEPT ![r.ref] = r.ann] ELSE st.tagann]
 RECURSIVE Finals(_, _)
 Finals(st, K) == IF K = {} THEN {st} ELSE UNION {Finals(Apply(st, par[k]), K \ {k}) : k \in K}
+\* In the memory store the content map is one atomic map: the results of the concurrent Push and Tag calls themselves
+\* must be those of one order too ("pushing content that is already present is refused").  The OCI layout and the file
+\* store are not held to this: there two racing pushes of one blob may both report success.
+IsMut(r) == r.op \in {"push", "pushbad", "tag"}
+RECURSIVE Explains(_, _)
+Explains(st, K) ==     \* some order of the operations K from state st returns what the calls returned
+  IF K = {} THEN TRUE
+  ELSE \E k \in K : LET x == ExpectOn(st.content, st.tags, st.indexed, st.stray, par[k]) IN
+                      (IsMut(par[k]) => par[k].res = x.res) /\ Explains(Apply(st, par[k]), K \ {k})
 \* the live observation o is the one of state f
 Matches(o, f) ==
   LET pres == f.content \cup f.stray IN
   /\ Rng(o.exists) = pres /\ Rng(o.fetchok) = pres /\ Rng(o.existsplain) = pres /\ Rng(o.fetchplain) = pres
   /\ {<<o.tags[i][1], o.tags[i][2]>> : i \in 1..Len(o.tags)} = {<<r, f.tags[r]>> : r \in {q \in Refs : f.tags[q] # 0}}
-  /\ (IsOci => \A i \in 1..Len(o.tags) : o.tags[i][1] \in Refs => o.tags[i][3] = f.tagann[o.tags[i][1]])
+  /\ \A i \in 1..Len(o.tags) : o.tags[i][1] \in Refs => o.tags[i][3] = f.tagann[o.tags[i][1]]
   /\ \A n \in Nodes : Rng(o.pred[n]) = Pred(f.content, n)
   /\ (IsOci => /\ Rng(o.byblob) = pres \ Rng(o.byindex)
                 /\ IF \E k \in 1..Len(par) : par[k].op = "gc"      \* a GC in the tail: the index within its bounds
@@ -160,7 +169,8 @@ EvParEnd ==
      THEN LET f == CHOOSE x \in good : TRUE IN
           /\ content' = f.content /\ tags' = f.tags /\ stray' = f.stray /\ tagann' = f.tagann
           /\ indexed' = IF IsOci THEN Rng(Trace[l + 1].o.byindex) \cap f.indexed ELSE f.indexed
-          /\ UNCHANGED <<viol, lost>>
+          /\ V({<<"ConcurrentResultsExplained", g.kind # "memory" \/ Explains(Cur, 1..Len(par))>>})
+          /\ UNCHANGED lost
      ELSE /\ V({<<"ConcurrentSerializable", FALSE>>}) /\ lost' = TRUE
           /\ UNCHANGED <<content, tags, indexed, stray, tagann>>
   /\ par' = <<>>
